@@ -13,9 +13,24 @@ namespace Tok
 /-- OBLIGATION on the current source: the extracted tables are well formed. -/
 theorem C02_gen_ok : escOK Gen.Tok.tables = true := by decide
 
-/-- The Cython twin uses the same BARE_DISALLOWED set (the only table it shares textually). -/
+/-- The Cython twin uses the same BARE_DISALLOWED set. -/
 theorem C02_pyx_tables :
-    Gen.Tok.pyxBareDisallowed = some Gen.Tok.tables.bareDisallowed := by decide
+    Gen.Tok.pyxBareDisallowed = some Gen.Tok.tables.bareDisallowed := by decide +kernel
+
+/-- Same elements (order-insensitive). -/
+def sameSet (a b : List Char) : Bool := a.all b.contains && b.all a.contains
+def samePairs (a b : List (Char × Char)) : Bool := a.all b.contains && b.all a.contains
+
+/-- OBLIGATION on the Cython twin (static only — it cannot be built here): the escape tables read
+off the if/elif chains of `_tokenizer.pyx` are recognised, are the same tables as the `.py` ones,
+and so satisfy `escOK` as well: all the generic theorems below apply to them. Its control flow is
+not covered. -/
+theorem C02_pyx_escape_tables :
+    ∃ P, Gen.Tok.pyxTables = some P ∧ escOK P = true ∧
+      samePairs P.escapes Gen.Tok.tables.escapes = true ∧
+      sameSet P.exclSingle Gen.Tok.tables.exclSingle = true ∧
+      sameSet P.exclMulti Gen.Tok.tables.exclMulti = true := by
+  refine ⟨_, rfl, ?_, ?_, ?_, ?_⟩ <;> decide +kernel
 
 /-- **Inverse law, embedded anywhere.** At any token boundary (any state `st`, any following
 text `rest`, any options with escapes enabled), a quote, `escape_text(s)`, a quote is read back
